@@ -210,6 +210,11 @@ func (t *Dense) CopyTo(other *Dense) error {
 
 	// easy peasy lemon squeezy
 	if t.viewOf == 0 && other.viewOf == 0 {
+		if t.RequiresIterator() || other.RequiresIterator() || !t.DataOrder().HasSameOrder(other.DataOrder()) {
+			// a lazily transposed or differently ordered tensor is copied element by element in logical order
+			_, err := copyDenseIter(other, t, nil, nil)
+			return err
+		}
 		copyDense(other, t)
 		return nil
 	}
